@@ -109,16 +109,21 @@ pub fn run(ctx: &mut Ctx) {
     }
     // DenseNatMap::rewrite under the sorting plan (unit DNX): the map is reindexed by the plan, `r[p[i]] == m[i]` (u8 values are
     // their own rewrite), same length; lengths 0..=4 over values 0..3, and a map keyed by ANOTHER type (usize) is left in place
-    for len in 0..=4usize {
-        for code in 0..3u32.pow(len as u32) {
-            let v: Vec<u8> = (0..len as u32).map(|k| ((code / 3u32.pow(k)) % 3) as u8).collect();
+    for len in 0..=5usize {
+        for code in 0..5u32.pow(len as u32) {
+            // five distinct values allow every permutation of up to five keys, incl. the 4- and 5-cycles
+            let v: Vec<u8> = (0..len as u32).map(|k| ((code / 5u32.pow(k)) % 5) as u8).collect();
             let case = format!("dnm-rewrite:{:?}", v);
             if !ctx.want(&case) { continue; }
             let plan = RewritePlan::<Id, _>::from_values_to_sort(&v);
             let p: Vec<usize> = (0..len).map(|i| usize::from(plan.rewrite(&Id::from(i)))).collect();
             let xs: Vec<u8> = (0..len as u8).map(|i| 10 + i).collect();
             let m: DenseNatMap<Id, u8> = xs.iter().copied().collect();
-            let r = m.rewrite(&plan);
+            // (rewrite collects through `FromIterator<(K, V)>`, which panics on what it takes for a gap or duplicate)
+            let r = match std::panic::catch_unwind(std::panic::AssertUnwindSafe(|| m.rewrite(&plan))) {
+                Ok(r) => r,
+                Err(_) => { ctx.check(&case, "dnm-rewrite-not-reindexed-by-the-plan", &["DNX.dnm_rewrite.body", "DNX.from_pairs.body"], false, format!("p={:?}: rewrite panicked", p), "no panic: the rewritten keys are a permutation".into()); continue; }
+            };
             let ok = r.len() == len && (0..len).all(|i| r.get(Id::from(p[i])) == Some(&xs[i]));
             ctx.check(&case, "dnm-rewrite-not-reindexed-by-the-plan", &["KX.k_dnm_rewrite_moves_values_to_rewritten_keys", "DNX.dnm_rewrite.ensures.moved-to-rewritten-key-and-rewritten",
                 "DNX.dnm_rewrite.ensures.same-length", "DNX.dnm_rewrite.loop1.invariant.pairs-rewritten-so-far", "DNX.dnm_rewrite.body", "DNX.iter.loop1.invariant.pairs-so-far"],
